@@ -31,7 +31,7 @@ def reader_analysis(ck, tag='c01'):
     def after_crc(I, w, frame, site, args, rv):
         w.mem[('G', 'crc_val')] = rv
     cfg = decap_cfg(f, {'call_hooks': {DEC + 'decap_complete': mark(0), DEC + 'decap_first': mark(1), DEC + 'decap_intermediate': mark(2), DEC + 'decap_end': mark(3),
-                                       'gse_decap::iterate_over_extension_header': saw_ext},
+                                       walker_key(f): saw_ext},
                         'ret_hooks': {TRAIT_MEM + 'new_pdu': got_storage, TRAIT_MEM + 'new_frag': got_storage, TRAIT_MEM + 'take_frag': after_take,
                                       'crc::CrcCalculator::calculate_crc32': after_crc}})
     return ck.analyse(DEC + 'decap', cfg, tag=tag)
@@ -79,10 +79,10 @@ def reader_complete_rules(ck, d, P):
     # payload copy into storage
     ncopy = 0
     for r in d.events('write'):
-        if short(r.site[0]) != 'decap_complete':
-            continue
         _, base, start, ln, src = r.data[:5]
         W = r.data[6]
+        if kind_of(W) != 0:
+            continue
         if src[0] != 'seq' or src[1].root != buf[1].root:
             continue
         kind, lt_ = part_of(f, W)
@@ -156,7 +156,7 @@ def reader_complete_rules(ck, d, P):
                         continue
                     # R4: this reject path must be infeasible for a packet the encapsulator emits and a storage that can hold the PDU
                     ck.obligations += 1
-                    post = [le(Lin.c(L + 2), gse)]
+                    post = [le(Lin.c(L + 2), gse), le(gse + 2, buf[3])]      # well-formed, and the receiver is given the whole packet
                     if pt is not None:
                         post.append(le(Lin.c(0x600), pt))
                     sb = storage_box(w)
@@ -195,7 +195,7 @@ def writer_guard_rules(ck, P):
             fl = list(md[1])
             fl[i_label] = ('enum', tuple((v, fs) for v, fs in lab[1] if v == _v))
             args[i - 1] = ('agg', tuple(fl))
-        a = analyse_writer(ck, ENC + 'encap', tag=f"c01-{lv['name']}", extra={'ret_hooks': {ENC + 'check_label_re_use': clru_ret}, 'kslots': 24}, premise=fix_label)
+        a = analyse_writer(ck, ENC + 'encap', tag=f"c01-{lv['name']}", extra={'ret_hooks': {clru_key(f): clru_ret}, 'kslots': 24}, premise=fix_label)
         B, Pn = a.arg('buffer')[3], a.arg('pdu')[3]
         for w, rv in a.rets:
             sub = ghost(w, 'subst')
